@@ -6,6 +6,7 @@ import (
 	"strings"
 	"sync"
 	"sync/atomic"
+	"unicode/utf8"
 
 	_ "unsafe" // go:linkname
 
@@ -64,6 +65,31 @@ func submissions(around []string, window []string, d int) []string {
 		// a Unicode digit string whose BYTE length equals d (when possible)
 		if d >= 3 {
 			add("０" + x[3:])
+		}
+	}
+	// same BYTE length, but k digits replaced by ONE multi-byte character whose code point has the first replaced
+	// digit as its low byte (U+0130 for "0x", U+2030 for "0xx" ...), and byte-level look-alikes: same low nibble,
+	// bit 7 / bit 6 flipped (pairs) - a comparison over runes, low bytes, nibbles or sums equates them
+	if len(x) > 0 {
+		for j := 0; j < len(x); j++ {
+			for _, base := range []rune{0x100, 0x2000, 0x10000} {
+				r := base + rune(x[j])
+				k := utf8.RuneLen(r)
+				if j+k <= len(x) {
+					add(x[:j] + string(r) + x[j+k:])
+				}
+			}
+			b := []byte(x)
+			b[j] = x[j]&0x0F | 0x40
+			add(string(b)) // same low nibble ('G' for '7')
+			b[j] = x[j] | 0x80
+			add(string(b))
+			if j+1 < len(x) {
+				b[j+1] = x[j+1] | 0x80
+				add(string(b)) // two bytes with bit 7 set: their XORs sum to 0 mod 256
+				b[j], b[j+1] = x[j]^0x40, x[j+1]^0x40
+				add(string(b))
+			}
 		}
 	}
 	// strings that a lenient NUMERIC comparison would equate with a window code: a sign or
